@@ -197,6 +197,33 @@ def derived_params(b, defs, local, seen=None):
     return out
 
 
+def _imposes(F, cb, param, types, memo, depth=0):
+    """quantity types (among `types`) that `cb` hands to a state-building call with a value derived from its parameter `param`"""
+    key = (cb.path, param)
+    if key in memo or depth > 2:
+        return memo.get(key, set())
+    memo[key] = set()
+    out = set()
+    defs = Defs(cb)
+    for bi, t in cb.calls():
+        rty = (cb.pty(t["dest"]) or {}).get("s", "")
+        if "state::State<" not in rty and "PhaseEquilibrium<" not in rty and "StateBuilder<" not in rty:
+            continue
+        for ai, a in enumerate(t["args"]):
+            if a.get("k") not in ("copy", "move"):
+                continue
+            ty = cb.opty(a)
+            if ty and ty["s"] in types and param in derived_params(cb, defs, a["place"]["l"]):
+                out.add(ty["s"])
+        cb2 = F.callee_body(t)
+        if cb2 is not None and cb2.crate == "feos_core" and not cb2.is_closure() and cb2["arg_count"] == len(t["args"]) and cb2.path != cb.path:
+            for ai, a in enumerate(t["args"]):
+                if a.get("k") in ("copy", "move") and param in derived_params(cb, defs, a["place"]["l"]):
+                    out |= _imposes(F, cb2, ai + 1, types, memo, depth + 1)
+    memo[key] = out
+    return out
+
+
 def guess_frame(F, r):
     """Functions of the phase-equilibrium module that take an initial guess (Option<&PhaseEquilibrium> / &PhaseEquilibrium
     named by type) together with a *specified* temperature and/or pressure (a parameter of that type, or — for methods of
@@ -240,6 +267,13 @@ def guess_frame(F, r):
             rty = b.pty(t["dest"])["s"]
             if "state::State<" not in rty and "PhaseEquilibrium<" not in rty and "StateBuilder<" not in rty:
                 continue
+            # a helper that re-initialises the guess *at the guess's own* temperature / pressure (`init.at_pressure(p)`)
+            cb = F.callee_body(t)
+            if cb is not None and cb.crate == "feos_core" and not cb.is_closure() and cb["arg_count"] == len(t["args"]):
+                for ai, a in enumerate(t["args"]):
+                    if a.get("k") in ("copy", "move") and derived_params(b, defs, a["place"]["l"]) & set(guess):
+                        for ty_ in _imposes(F, cb, ai + 1, spec_types, {}):
+                            bad.append((t["span"], "temperature" if ty_ == t_ty else "pressure", callee(t)[2]))
             for a in t["args"]:
                 if a.get("k") not in ("copy", "move"):
                     continue
